@@ -263,10 +263,8 @@ def _cog_block_compressor_yxs(
     if predictor is not None:
         block = predictor(block, axis=1)
     if encoder:
-        try:
-            return encoder(block, **kw)
-        except Exception:  # pylint: disable=broad-except
-            return b""
+        # an encoder failure must not turn into an "empty" tile
+        return encoder(block, **kw)
 
     return bytes(block.data)
 
@@ -299,10 +297,8 @@ def _cog_block_compressor_syx(
         block = predictor(block, axis=1)
 
     if encoder:
-        try:
-            return encoder(block, **kw)
-        except Exception:  # pylint: disable=broad-except
-            return b""
+        # an encoder failure must not turn into an "empty" tile
+        return encoder(block, **kw)
 
     return bytes(block.data)
 
